@@ -626,6 +626,12 @@ def gen_axis_index(rng, n, head):
     l = sorted(rng.sample(range(n), k))
     if head and rng.random() < 0.3:
         l = l[:-1] + [l[-1] - n]       # the last one written as a negative index
+    elif head and len(l) > 1 and rng.random() < 0.4:
+        # the parts visited out of time order (each part's own rows still increasing when the cut falls on a part
+        # boundary; otherwise the part's own indexer refuses the unsorted list: outside the domain)
+        j = rng.randrange(1, len(l))
+        l = l[j:] + l[:j]
+        return list(l), [3, l], 'rotlist'
     return list(l), [3, l], 'list'
 
 
@@ -663,7 +669,7 @@ def stage_data(cs, c, twins_arrays, masks, rng, nidx, tag, tws=None, fw_touched=
     fk, bk = np.asarray(fk, dtype=bool), np.asarray(bk, dtype=bool)
     # a fixed battery (list / mask / slice / scalar head with scalar tails, over the part boundaries) on every array
     # kind, then nidx random indices
-    todo = [(a, k) for a in ARRAYS for k in ((0, 1, 2, 3, 4, 5, 6) if a != 'timestamps' else (0, 1, 5, 6))] if tag == 'after=open' else []
+    todo = [(a, k) for a in ARRAYS for k in ((0, 1, 2, 3, 4, 5, 6, 7) if a != 'timestamps' else (0, 1, 5, 6, 7))] if tag == 'after=open' else []
     todo += [(None, None)] * nidx
     for (arr, fixed) in todo:
         arr = arr or rng.choice(ARRAYS)
@@ -706,6 +712,11 @@ def stage_data(cs, c, twins_arrays, masks, rng, nidx, tag, tws=None, fw_touched=
                     continue
                 heads += [None] * (fixed - 4)
                 heads[fixed] = (slice(None, b, st), [1, [], [b], [st]], 'slice')
+                if fixed == 7:
+                    # an integer list that asks for rows of a LATER part first: [first row after the first boundary,
+                    # last row, first row] - the answer keeps the order of the list
+                    l7 = [b] + ([n - 1] if n - 1 > b else []) + [0]
+                    heads[fixed] = (l7, [3, l7], 'rotlist')
                 tails += [[]] * (fixed - 4)
             items = [heads[fixed]] + (tails[fixed] if arr != 'timestamps' else [])
             py, wire, forms = [list(x[0]) if isinstance(x[0], list) else x[0] for x in items], [x[1] for x in items], [x[2] for x in items]
@@ -757,6 +768,12 @@ def stage_data(cs, c, twins_arrays, masks, rng, nidx, tag, tws=None, fw_touched=
             continue
         # tie: model labels -> stored values
         if not label_tie:
+            continue
+        if mo[0][0] == 0 and forms[0] == 'rotlist' and 'v1' in cs.fmt:
+            # a v1 data set is itself a concatenation of per-scan indexers: a list that is unsorted inside a PART (which
+            # the model of a one-indexer part refuses) can still be sorted inside every scan; the answer was compared
+            # with the spec above
+            ctx.count('v1_unsorted_list_inside_a_part_answered')
             continue
         if mo[0][0] == 0:
             cs.disagree(sig + ';what=model_rejects', list(got.shape), 'Err', 'model rejects an index the implementation answers', kind='tie',
